@@ -65,6 +65,18 @@ pub fn random_behaviour(rng: &mut Rng, task: usize, calls: u32, p_susp: u64, max
     out
 }
 
+/// PCT-style schedule for `tasks` tasks: distinct random priorities and up to three change points.
+pub fn random_priorities(rng: &mut Rng, tasks: usize, exec: &mut ExecSpec) {
+    let mut p: Vec<u32> = (0..tasks as u32).map(|i| 10 + i).collect();
+    for i in (1..p.len()).rev() {
+        let j = rng.usize(i + 1);
+        p.swap(i, j);
+    }
+    exec.priorities = p;
+    let d = rng.below(4);
+    exec.prio_changes = (0..d).map(|i| (rng.below(80) as u32, i as u32)).collect();
+}
+
 pub fn random_picks(rng: &mut Rng, len: usize, tasks: usize, p_spurious: u64, p_advance: u64) -> Vec<Pick> {
     (0..len)
         .map(|_| Pick {
